@@ -284,6 +284,13 @@ _STR_METHODS = {'replace', 'strip', 'rstrip', 'lstrip', 'upper', 'lower', 'start
                 'find', 'split', 'join', 'zfill'}
 
 
+def model_seq(v):
+    """a model object that stands for a sequence (len() and [i]) as the tuple of its items; anything else unchanged"""
+    if getattr(v, '_sa_model', False) and hasattr(type(v), '__len__') and hasattr(type(v), '__getitem__'):
+        return tuple(v[i] for i in range(len(v)))
+    return v
+
+
 def ev(e, env, funcs=None):
     """evaluate a closed pure expression under `env` (name or access-path -> value).
     Supports arithmetic, comparisons, boolean operators, len(), int(), slicing/indexing of
@@ -352,8 +359,8 @@ def ev(e, env, funcs=None):
         return v[ev(s, env, funcs)]
     if isinstance(e, (ast.ListComp, ast.GeneratorExp)) and len(e.generators) == 1 and not e.generators[0].is_async:
         gen = e.generators[0]
-        it = ev(gen.iter, env, funcs)
-        if isinstance(it, range):
+        it = model_seq(ev(gen.iter, env, funcs))
+        if isinstance(it, (range, FrozenDict)):
             it = tuple(it)
         if not isinstance(it, (tuple, str)) or len(it) > 200:
             raise NotClosed('comprehension iterable')
@@ -379,6 +386,8 @@ def ev(e, env, funcs=None):
             raise NotClosed('Attribute')
         if getattr(base, '_sa_model', False) and hasattr(base, e.attr) and not callable(getattr(base, e.attr)):
             return getattr(base, e.attr)
+        if getattr(base, '_sa_model', False) and callable(getattr(base, e.attr, None)) and getattr(getattr(base, e.attr), '__self__', None) is base:
+            return getattr(base, e.attr)      # the bound method as a value
         raise NotClosed('Attribute')
     if isinstance(e, ast.JoinedStr):
         out = []
@@ -397,6 +406,9 @@ def ev(e, env, funcs=None):
                 raise NotClosed('fstring part')
         return ''.join(out)
     if isinstance(e, ast.Call):
+        if isinstance(e.func, ast.Name) and not e.keywords and getattr(getattr(env.get(e.func.id), '__self__', None), '_sa_model', False):
+            # a bound method of a model object held in a local:  f = model.method; f(x)
+            return env[e.func.id](*[ev(a, env, funcs) for a in e.args])
         if isinstance(e.func, ast.Name) and e.func.id == 'format' and len(e.args) == 2 and not e.keywords:
             return format(ev(e.args[0], env, funcs), ev(e.args[1], env, funcs))
         if isinstance(e.func, ast.Name) and e.func.id == 'next' and len(e.args) == 2 and not e.keywords:
@@ -447,9 +459,16 @@ def ev(e, env, funcs=None):
                 recv_d = None
             if isinstance(recv_d, FrozenDict):
                 return recv_d.get(*[ev(a, env, funcs) for a in e.args])
+        if isinstance(e.func, ast.Attribute) and e.func.attr in ('keys', 'values', 'items') and not e.args and not e.keywords:
+            try:
+                recv_d = ev(e.func.value, env, funcs)
+            except NotClosed:
+                recv_d = None
+            if isinstance(recv_d, FrozenDict):
+                return tuple(getattr(recv_d, e.func.attr)())
         if isinstance(e.func, ast.Name) and e.func.id in ('enumerate', 'zip') and not e.keywords:
             args = [ev(a, env, funcs) for a in e.args]
-            args = [tuple(a) if isinstance(a, list) else a for a in args]
+            args = [tuple(a) if isinstance(a, list) else model_seq(a) for a in args]
             if all(isinstance(a, (tuple, str)) for a in args[:1]) and (e.func.id == 'zip' or len(args) <= 2):
                 if e.func.id == 'zip':
                     if all(isinstance(a, (tuple, str)) for a in args):
